@@ -29,6 +29,6 @@ if grep -q "^$PROP\$" /verif/scripts/needs_repo_bins.txt 2>/dev/null; then
   if [ ! -d "$BT" ] && [ -d /verif/target/repo-bins/debug ]; then mkdir -p "$BT"; cp -a /verif/target/repo-bins/debug "$BT/debug" 2>/dev/null; fi
   ( cd "$TREE" && cargo build --offline -p ripd -p rip-cli --bins --target-dir "$BT" 2>&1 | grep -E "^error|Finished" | head -10 )
   [ -x "$BT/debug/ripd" ] && [ -x "$BT/debug/rip" ] || { echo "repo bins build failed"; exit 2; }
-  export C19_RIPD_BIN="$BT/debug/ripd" C19_RIP_BIN="$BT/debug/rip" C20_RIP_BIN="$BT/debug/rip"
+  export C18_RIPD_BIN="$BT/debug/ripd" C18_RIP_BIN="$BT/debug/rip" C19_RIPD_BIN="$BT/debug/ripd" C19_RIP_BIN="$BT/debug/rip" C20_RIP_BIN="$BT/debug/rip"
 fi
 cd "$R" && exec "$CARGO_TARGET_DIR/debug/$BIN" "$@"
